@@ -231,7 +231,7 @@ def case(ctx, rng):
     for f in feats:
         ctx.count("feature", f)
     # ---- ladder per mode
-    modes = rng.sample([1, 2, 3, 4, 5, 6], ctx.n(2, 6))
+    modes = rng.sample([1, 2, 3, 4, 5, 6], 2 if ctx.quick else 6)
     for mode in modes:
         p = 2 if mode in (3, 4) else 1
         if mode == 1:
@@ -281,5 +281,5 @@ def case(ctx, rng):
 
 
 def run(ctx):
-    for _, rng in ctx.cases("matrices", ctx.n(2500, 40000)):
+    for _, rng in ctx.cases("matrices", ctx.budget(20000, 400000)):
         ctx.run_case(case, ctx, rng)
